@@ -231,6 +231,9 @@ _c15_raw = _c15
 def _c15(tier="quick", seed=0):
     out = _c15_raw(tier, seed)
     out += flow.call_present_after("calibration:calibrate", "_update_parset(args['parset'], x1, pars_to_adjust)", "Try", "the returned parameter set carries the optimiser's best point, not the last trial")
+    # calibration evaluates and finally updates a COPY of the caller's parameter set (the objective writes trial factors into args['parset'])
+    out += flow.assignment_is("calibration:calibrate", "args", "{'project': project, 'parset': parset.copy(), 'pars_to_adjust': pars_to_adjust, 'output_quantities': output_quantities}",
+                              "the objective function receives a copy of the caller's parameter set")
     return out
 
 
